@@ -488,6 +488,8 @@ class Gen(object):
             ncb = r.choice([1, 1, 2]) if r.random() < self.p.p_cb else 0
         if ncb:
             op['ncb'] = ncb
+            if r.random() < 0.25:
+                op['cb_sites'] = [self.some_sites() if r.random() < 0.7 else None for _ in range(ncb)]
         if r.random() < 0.06 and self.w.template is None:
             # the same format given through n_int and one other size
             s, nw, nf = fmt
@@ -522,10 +524,26 @@ class Gen(object):
         if fmt[1] > 40:
             fmt[1] = 20
             fmt[2] = min(fmt[2], 20)
-        val = self.val_for(fmt, 'trunc', kind=r.choice(['exact', 'inexact']))
+        val = self.val_for(fmt, 'trunc', kind=r.choice(['exact', 'inexact', 'exact', 'inexact', 'zero', 'pow2', 'pow2',
+                                                          'near_hi', 'near_lo', 'hi', 'lo']))
+        if r.random() < 0.15:
+            # all elements negative / one sign only / powers of two and their neighbours
+            k = r.randint(0, 20)
+            base = Fraction(1 << k) if r.random() < 0.5 else Fraction(1, 1 << k)
+            vs = [r.choice([-1, -1, 1]) * (base + r.choice([0, 0, Fraction(1, 1 << r.randint(1, 12)), -Fraction(1, 1 << r.randint(1, 12))]))
+                  for _ in range(r.randint(1, 3))]
+            if r.random() < 0.5:
+                vs = [-abs(v) for v in vs]
+            val = ['l', [self.scalar_spec(v, allow_str=False) for v in vs]] if len(vs) > 1 or r.random() < 0.5 \
+                else self.scalar_spec(vs[0], allow_str=False)
         part = r.choice([[None, None, None], [fmt[0], None, None], [fmt[0], fmt[1], None],
-                         [fmt[0], None, max(0, fmt[2])]])
-        return {'op': 'new', 'val': val, 'fmt': part, 'kw': self.modes()}
+                         [fmt[0], None, max(0, fmt[2])], [None, None, max(0, fmt[2])], [None, fmt[1], None]])
+        kw = self.modes()
+        if r.random() < 0.25:
+            kw['n_word_max'] = r.choice([64, 48, 32, 16, 8])
+        if r.random() < 0.2:
+            kw['max_error'] = r.choice([1e-6, 2.0 ** -20, 2.0 ** -4, 0.5])
+        return {'op': 'new', 'val': val, 'fmt': part, 'kw': kw}
 
     def g_new_from(self, src=None, fmt=None):
         r = self.rng
@@ -1270,11 +1288,28 @@ class Gen(object):
             return self.g_new()
         return {'op': 'drop', 'slot': k}
 
+    def some_sites(self):
+        """A proper, non-empty subset of the four handlers (a callback need not implement them all)."""
+        r = self.rng
+        ss = [x for x in SITES if r.random() < 0.5]
+        if r.random() < 0.4:
+            # written the other way: an instance of the library's Callback base class with handlers
+            # attached to the instance (all four, or some)
+            if r.random() < 0.5 or not ss:
+                ss = list(SITES)
+            return ss + ['derived']
+        if not ss or len(ss) == len(SITES):
+            ss = [r.choice(SITES)]
+        return ss
+
     def g_cb_attach(self):
         k, _ = self.pick()
         if k is None:
             return self.g_new()
-        return {'op': 'cb_attach', 'slot': k, 'n': self.rng.choice([1, 1, 2])}
+        op = {'op': 'cb_attach', 'slot': k, 'n': self.rng.choice([1, 1, 2])}
+        if self.rng.random() < 0.3:
+            op['sites'] = [self.some_sites() if self.rng.random() < 0.7 else None for _ in range(op['n'])]
+        return op
 
     def g_cb_replace(self):
         r = self.rng
